@@ -179,7 +179,7 @@ def simulate(workdir, constants, num, depth, seed, timeout=900):
     return behs
 
 
-def tours(workdir, constants, timeout=1500, probes=False):
+def tours(workdir, constants, timeout=1500, probes=False, fanout=0):
     """Exhaustive TLC run that prints every distinct state once with a shortest path, and the transaction alphabet.
     Returns (paths, alphabet, states, transitions): paths = list of lists of act dicts."""
     cfg = os.path.join(workdir, 'tour.cfg')
@@ -202,9 +202,16 @@ def tours(workdir, constants, timeout=1500, probes=False):
     if probe_txs:
         # after EVERY probe the whole single-transaction alphabet is fired again (a later probe may undo what an earlier one left behind)
         # (and re-fired before every single transaction: one that changes the state is undone by a restart, which also wipes process memory)
+        # fanout > 0: each probe is followed by `fanout` transactions of the alphabet only, a different window per probe (every transaction is
+        # still paired with many probes); 0 = every (probe, transaction) pair
         fire = []
-        for p in probe_txs:
-            for a in alphabet:
+        for pi, p in enumerate(probe_txs):
+            if fanout and fanout < len(alphabet):
+                start = (pi * 7) % len(alphabet)
+                follow = [alphabet[(start + k * max(1, len(alphabet) // fanout)) % len(alphabet)] for k in range(fanout)]
+            else:
+                follow = alphabet
+            for a in follow:
                 fire.append(p)
                 fire.append(a)
         return paths, fire, dist, gen
